@@ -1,9 +1,7 @@
 (* props/C14.v - C14: one lattice: Cartesian map, periodic images and cell area agree (reals). *)
 From Coq Require Import ZArith List Bool Reals Sorted. Import ListNotations.
 From PV Require Import Num NumR model.Geom proofs.LatticeFacts proofs.SiteFacts.
-From PV Require Import gen.GenFns proofs.SourceFacts.
-From PV Require Import model.Iter proofs.SearchFacts.
-From PV Require Import gen.GenFns proofs.SourceFacts proofs.SearchFacts.
+From PV Require Import gen.GenFns model.Iter model.Pipeline proofs.ListLemmas proofs.SrcCell.
 
 Theorem C14_to_cartesian_linear :
   forall c : cellR, to_cartesian NumR c (1%R, 0%R) = vecA c /\ to_cartesian NumR c (0%R, 1%R) =
@@ -77,10 +75,6 @@ Theorem C14_to_cartesian_is_source :
 Proof. exact to_cartesian_is_source. Qed.
 Print Assumptions C14_to_cartesian_is_source.
 
-Theorem C14_source_translated :
-  gen_fns_problem = String.EmptyString.
-Proof. exact source_translated. Qed.
-Print Assumptions C14_source_translated.
 
 
 Theorem C14_periodic_images_is_source :
@@ -95,4 +89,12 @@ Theorem S_cell_sides_are_source :
     c.
 Proof. exact cell_sides_are_source. Qed.
 Print Assumptions S_cell_sides_are_source.
+
+
+Theorem C14_cell_source_translated :
+  translated_gen_wrap = true /\ translated_gen_periodic_images = true /\
+    translated_gen_positions = true /\ translated_gen_cell_a = true /\ translated_gen_cell_b =
+    true /\ translated_gen_cell_area = true /\ translated_gen_to_cartesian = true.
+Proof. exact cell_source_translated. Qed.
+Print Assumptions C14_cell_source_translated.
 
